@@ -46,7 +46,7 @@ for p in props:
         na.append({"property_id": pid, "reason": NOT_CLAIMED.get(pid, "check not built yet in this round (planned: DESIGN.md section 5)")})
 m = {
     "version": 1,
-    "setup_cmd": "make -C coq -j16 all",
+    "setup_cmd": "make -C coq -j16 -k all || make -C coq lint",
     "hooks": {"guard": "VIVARIUM_VERIF", "enable": "none needed - the harness observes /repo/src from outside (boot shim puts /repo/src first on sys.path; wrappers are installed in the harness process only)",
               "baseline_off_cmd": "cd /repo && /venv/bin/python -m pytest -ra -q -p no:cacheprovider --timeout=900 --continue-on-collection-errors",
               "source_commits": [], "add_only": True},
